@@ -24,7 +24,9 @@ func Minimise(sc *Scenario, run RunFunc, deadline time.Time) (*Scenario, *Violat
 		if time.Now().After(deadline) {
 			return false
 		}
-		nv := run(cand)
+		// run what would be saved: the candidate after a JSON round trip
+		cand = cand.Clone()
+		nv := run(cand.Clone())
 		if nv != nil && nv.Fingerprint == fp {
 			best = cand
 			v = nv
